@@ -22,6 +22,7 @@ def gen_cases(rng, tier):
         cases += list(G.tf_exhaustive(G.QUICK_DELIMS, 6, rng))            # all texts <= 6 chars, all 2^(n-1) chunkings
         cases += list(G.tf_from_end_exhaustive(["||", "aba", "|"], 2, 3, rng))
         cases += list(G.tf_random(rng, 1500, 40))
+        cases += list(G.tf_linebreakish(rng, 300, 12))
         cases += list(G.sp_exhaustive(G.QUICK_DELIMS + ["a", "aab"], 9))
         cases += list(G.fn_exhaustive(["b", "a10", "a9", "B"]))
         cases += list(G.fn_random(rng, 400, 6, 6))
@@ -30,6 +31,7 @@ def gen_cases(rng, tier):
         cases += list(G.tf_exhaustive(G.QUICK_DELIMS + G.MORE_DELIMS[:4], 7, rng))
         cases += list(G.tf_from_end_exhaustive(G.QUICK_DELIMS, 3, 4, rng))
         cases += list(G.tf_random(rng, 20000, 200))
+        cases += list(G.tf_linebreakish(rng, 4000, 40))
         cases += list(G.sp_exhaustive(G.QUICK_DELIMS + G.MORE_DELIMS, 11))
         cases += list(G.fn_exhaustive(["b", "a10", "a9", "B", "a"]))
         cases += list(G.fn_random(rng, 6000, 10, 8))
